@@ -476,6 +476,7 @@ pub fn run_script(
         let now = util::at(ms);
         instants_used.push(ms);
         let mut drained = 0usize;
+        let mut ended_with_none = false;
         loop {
             // due operations
             for (k, (w, op)) in script.iter().enumerate() {
@@ -499,7 +500,10 @@ pub fn run_script(
             rec.pkt_index.store(stream.len(), std::sync::atomic::Ordering::Relaxed);
             let p = util::with_budget(READ_BUDGET, || sender.read(now));
             match p {
-                None => break,
+                None => {
+                    ended_with_none = true;
+                    break;
+                }
                 Some(b) => {
                     match decode_stream_pkt(b, now) {
                         Ok(p) => stream.push(p),
@@ -519,7 +523,7 @@ pub fn run_script(
                 }
             }
         }
-        samples.push(sample(&mut sender, &tois, stream.len(), now, true, drained));
+        samples.push(sample(&mut sender, &tois, stream.len(), now, ended_with_none, drained));
         if stream.len() >= opts.max_packets {
             break;
         }
